@@ -29,7 +29,10 @@ def run(ctx):
     ctx.cov["early_variant_model_rc"] = early.rc
     ctx.cov["early_variant_counterexample_found"] = "Invariant ModelHolds is violated" in early.stdout
 
-    cases = [{"id": i, "v": v["v"], "exp": v["exp"], "kind": v["kind"], "calls": len(v["exp"])}
+    # the call is repeated on the same connection only where the model says the first one is accepted
+    # (a rejected call leaves the state as it was, so repeating it would repeat the same observation)
+    cases = [{"id": i, "v": v["v"], "exp": v["exp"], "kind": v["kind"],
+              "calls": len(v["exp"]) if v["exp"][0] == "ok" else 1}
              for i, v in enumerate(vecs)]
     ncalls = sum(c["calls"] for c in cases)
     ctx.log("%d vectors, %d calls" % (len(cases), ncalls))
@@ -84,7 +87,7 @@ def run(ctx):
         ctx, "model_checking",
         rule="TLC checks the six normative predicates on the transcription of SetConfiguration for every vector it emits "
              "(space: 45927 vectors = construction x history position x per-field class x certificate class x server class; "
-             "thorough: the whole space, the call made twice; quick: a seeded sample plus all single-deviation vectors); "
+             "thorough: the whole space, an accepted call made a second time; quick: a seeded sample plus all single-deviation vectors); "
              "every emitted vector is replayed through "
              "NewPeerConnection/SetLocalDescription/Close/SetConfiguration/GetConfiguration; each call is judged by TLC. "
              "distinct = distinct (vector, call number, result, error type)",
